@@ -122,7 +122,9 @@ Proof.
   - intros n g s H. exact H.
   - intros n s H. exact H.
   - intros n s H. exact H.
-  - intros n s H. apply RInv_quiet; [exact I|exact H].
+  - intros n s _ H. unfold push_dtd.
+    assert (H1 : RInv (emit [EvPushDtd n] s)) by (apply RInv_quiet; [exact I|exact H]).
+    destruct (c_countDtd c); [|exact H1]. cbv zeta. destruct (over_limit c _); exact H1.
   - exact RInv_cr.
   - exact RInv_ss1.
   - exact RInv_ss2.
